@@ -183,6 +183,8 @@ class TriggerHandler:
             logging.debug("Callbacks registered: %s", callbacks)
             self._callbacks.get().append(
                 CallbackContext(event, file, line, function, callbacks))
+            # the callbacks reach this context again through their action contexts: the callback context owns them now
+            trigger_context.callbacks = []
 
         return self.trace_call
 
